@@ -91,7 +91,7 @@ func Time() *rapid.Generator[model.TimeSpec] {
 
 // ---- predicate ----
 
-var predIDPool = []string{"p", "q", "knows", "follows", "_subject", "a\"b", "\"@[", "x\"@[]", "]", "[", "@", "\\", "a\\", "é", "世界", "'", "p,q", "?x", "<n>", "\"^^type:text"}
+var predIDPool = []string{"p", "q", "knows", "follows", "_subject", "a\"b", "\"@[", "x\"@[]", "]", "[", "@", "\\", "a\\", "\\\"", "a\\\"b", "\\\\\"", "say \\\\\"hi\\\\\" twice", "\\\\", "é", "世界", "'", "p,q", "?x", "<n>", "\"^^type:text"}
 
 // PredID draws a non-empty valid-UTF-8 id without whitespace.
 func PredID() *rapid.Generator[string] {
